@@ -186,7 +186,16 @@ def fam_sanitize_siblings(rng, count):
         steps = [{"op": "sanitize", "s": 1, "qs": 1, "qA": []},
                  {"op": "sanitize", "s": 1},
                  {"op": "sanitize", "s": rng.choice([3, 6, 9])}]
-        out.append(hist(universe(k2), mem, req, steps, perm(rng, 12)))
+        h = hist(universe(k2), mem, req, steps, perm(rng, 12))
+        if rng.random() < 0.5:
+            # jobs of different schedulers are given the same requirement (also legitimate ones
+            # for some of them), as one shared set object
+            common = rng.choice([[2], [4], [11], [2, 11]])
+            for x in rng.sample([3, 4, 5, 7, 8, 10, 6], 3):
+                if not h["init"]["req"][x - 1] and x not in common:
+                    h["init"]["req"][x - 1] = list(common)
+            h["sharedset"] = True
+        out.append(h)
     return out
 
 
@@ -201,6 +210,8 @@ def fam_queries(rng, tier):
                 flagsets = rng.sample(flagsets, min(3, len(flagsets)))
             for flags in flagsets:
                 kinds = [rng.choice(["sched", "pure"])] + ["job"] * k
+                if k >= 2 and rng.random() < 0.3:
+                    kinds[rng.randint(1, k)] = "sched"      # an empty nested scheduler as a node
                 mem = {1: list(range(2, k + 2))}
                 req = {2 + i: [2 + r for r in rs] for i, rs in graph.items()}
                 steps = [{"op": "query", "qs": 1, "qA": a} for a in subsets(range(2, k + 2), 1, k)]
@@ -224,6 +235,9 @@ def fam_surgery(rng, tier):
                 step.update({"s": 1, "qs": 1, "qA": [jobs[0]]})
                 kk = list(kinds)
                 kk[0] = rng.choice(["sched", "pure"])
+                if k >= 2 and rng.random() < 0.3:
+                    # one node of the graph is a nested scheduler that has no member (yet)
+                    kk[rng.choice(jobs) - 1] = "sched"
                 out.append(hist(universe(kk), mem, req, [step], perm(rng, k + 1)))
             for j in jobs:
                 one({"op": "bypass", "x": j})
@@ -261,6 +275,15 @@ def fam_double(rng, tier):
                 steps = [{"op": "query", "qs": 1, "qA": [x]},
                          {"op": "bypass", "s": 1, "x": x},
                          {"op": "bypass", "s": 1, "x": y, "qs": 1, "qA": [z for z in jobs if z not in (x, y)][:1]}]
+                out.append(hist(universe(kinds), mem, req, steps, perm(rng, k + 1)))
+            # a query, then a requirement between two remaining jobs is dropped, then a cut:
+            # nothing recomputes anything in between
+            edges = [(2 + i, 2 + r) for i, rs in graph.items() for r in rs]
+            for (a, b) in (edges if tier != "quick" else edges[:2]):
+                steps = [{"op": "query", "qs": 1, "qA": [b]},
+                         {"op": "requires", "x": a, "A": [b], "f1": True},
+                         {"op": "keep_between", "s": 1, "A": [b], "B": [], "f1": True, "f2": True, "f3": False,
+                          "qs": 1, "qA": [b]}]
                 out.append(hist(universe(kinds), mem, req, steps, perm(rng, k + 1)))
             for x in (jobs if tier != "quick" else jobs[:2]):
                 rest = [z for z in jobs if z != x]
